@@ -35,7 +35,7 @@ impl Property for C11 {
         "C11"
     }
     fn rule(&self) -> String {
-        format!("histories of 1..8 didOpen/didChange steps over three documents f0..f2 (the first step opens f0), texts drawn from {NVARIANTS} variants per file (every include subset, renamed declaration, includes moved, syntax error, type error, include of a missing file) x 3 line layouts of the same bytes (as written, every / the first line break after ';' or a closing brace turned into a space: offsets stay, lines move); the harness writes each text to disk before sending it (buffer = disk) and proceeds in lock-step (idle = all tasks ended, then a barrier request). Oracle after EVERY step: for every URI ever published, the last publication equals the diagnostics of a fresh ide-level analysis of the current files with root = last touched document (converted by the repository's own to_proto::diagnostic), or is empty if the URI is not in that workspace; versions per URI never decrease. distinct = digest of history; non-trivial = >=2 steps and some URI whose expected diagnostics changed between non-empty and empty")
+        format!("histories of 1..8 didOpen/didChange steps over three documents f0..f2 (the first step opens f0) and - family late-files - a fourth one, f3.td, that does not exist until a step opens it, texts drawn from {NVARIANTS} variants per file (every include subset, renamed declaration, includes moved, syntax error, type error, include of a missing file) x 3 line layouts of the same bytes (as written, every / the first line break after ';' or a closing brace turned into a space: offsets stay, lines move); the harness writes each text to disk before sending it (buffer = disk) and proceeds in lock-step (idle = all tasks ended, then a barrier request). Oracle after EVERY step: for every URI ever published, the last publication equals the diagnostics of a fresh ide-level analysis of the current files with root = last touched document (converted by the repository's own to_proto::diagnostic), or is empty if the URI is not in that workspace; versions per URI never decrease. distinct = digest of history; non-trivial = >=2 steps and some URI whose expected diagnostics changed between non-empty and empty")
     }
     fn families(&self, ctx: &Ctx) -> Vec<Family> {
         vec![
@@ -58,6 +58,21 @@ impl Property for C11 {
                         let ops = if f == 0 { json!([[0, v, l1], [0, v, l2]]) } else { json!([[f, v, l1], [0, 7, 0], [f, v, l2], [0, 7, 1]]) };
                         if !emit(json!({"kind": "diag-history", "ops": ops})) {
                             return;
+                        }
+                    }
+                }
+            }),
+            // a file that was included in vain comes into being: f1 (include subset b) and f0 (subset a) are
+            // analysed while f3.td does not exist, then f3.td is opened, then f0 is sent again unchanged -
+            // what was unresolvable when a file was last analysed resolves now
+            Family::new("late-files", 8, |a, _r, emit| {
+                for b in 0..8u64 {
+                    for (fa, fb) in [(0u64, 0u64), (1, 0), (0, 2)] {
+                        let (va, vb) = (a + 8 * fa, b + 8 * fb);
+                        for ops in [json!([[1, vb], [0, va], [3, 0], [0, va]]), json!([[0, va], [3, 1], [1, vb], [0, va]]), json!([[0, va], [2, vb], [3, 0], [2, vb], [0, va]])] {
+                            if !emit(json!({"kind": "diag-history", "ops": ops})) {
+                                return;
+                            }
                         }
                     }
                 }
@@ -108,10 +123,11 @@ impl Property for C11 {
                 verdict = Some(Verdict::Skip("malformed-case"));
                 break;
             };
-            let name = format!("f{}.td", f as usize % NFILES);
+            // (f3.td does not exist until a step opens it: includes of it are unresolvable before, resolvable after)
+            let name = format!("f{}.td", f as usize % (NFILES + 1));
             // third component: line layout of the same bytes (0 as written, 1 every line break after
             // `;`/`}` turned into a space, 2 only the first one): offsets stay, lines and columns move
-            let text = layout(&variant_text(f as usize % NFILES, v as usize % NVARIANTS), op[2].as_u64().unwrap_or(0));
+            let text = layout(&variant_text(f as usize % (NFILES + 1), v as usize % NVARIANTS), op[2].as_u64().unwrap_or(0));
             s.tw.write(&name, &text);
             texts.insert(name.clone(), text.clone());
             let burst = case["burst"].as_bool() == Some(true);
